@@ -77,17 +77,20 @@ Proof. exact run_agrees. Qed.
 Print Assumptions c03_state_tracks_order_in_effect.
 
 (* ---- (c) resolver side: model of the Flattener (semantic/resolver/flatten.rs as of fixes 8f24a64, 592b6f8, 8d54bf7),
-   compared with the implementation's RQ (Take.sort, Compute.window.sort, partitions, surviving Sort transforms) on
-   every generated program.  Whatever sorts are dropped in front of a group, every take and every windowed compute
-   is handed exactly the order in effect at its position, at any nesting depth of group/window bodies.
+   compared with the implementation's RQ (Take.sort, Compute.window.sort, sizes of the partitions, surviving Sort
+   transforms) on every generated program.  Whatever sorts are dropped in front of a group, every take and every windowed
+   compute is handed exactly the order in effect and the partition at its position, at any nesting depth of group/window
+   bodies.
 
-   Full statement (FALSE of the faithful model, finding F44: inside a group body the code does not end the sort at an
-   aggregate, so what follows the aggregate in that body is handed a sort whose columns no longer exist):
+   Full statement (FALSE of the faithful model):
      forall key empty fuel und part s p,
        carried_of key (fst (flat key empty fuel und part s p)) = fst (carried_spec key empty fuel part s p) /\
-       snd (flat key empty fuel und part s p) = snd (carried_spec key empty fuel part s p)                            *)
+       snd (flat key empty fuel und part s p) = snd (carried_spec key empty fuel part s p)
+   Refuted twice: F44 (inside a group body the code does not end the sort at an aggregate, so what follows the aggregate in
+   that body is handed a sort whose columns no longer exist) and F45 (a group nested in the body of a group with a non-empty
+   key is partitioned by its own key only, not by the outer keys and its own). *)
 Theorem c03_flattener_carries_order_in_effect_partial : forall (key : Type) (empty : key) fuel und part s p,
-  Flatten.tame key fuel (Flatten.in_group part) p = true ->
+  Flatten.tame_agg key fuel (Flatten.in_group part) p = true -> Flatten.tame_nest key fuel part p = true ->
   Flatten.carried_of key (fst (Flatten.flat key empty fuel und part s p)) = fst (Flatten.carried_spec key empty fuel part s p) /\
   (FlattenProofs.ends_agg key (Flatten.in_group part) p = false ->
    snd (Flatten.flat key empty fuel und part s p) = snd (Flatten.carried_spec key empty fuel part s p)).
@@ -96,17 +99,26 @@ Print Assumptions c03_flattener_carries_order_in_effect_partial.
 
 (* a whole query (not a group body): also the order left in effect at its end *)
 Theorem c03_flattener_carries_order_in_effect_top : forall (key : Type) (empty : key) fuel und s p,
-  Flatten.tame key fuel false p = true ->
+  Flatten.tame key fuel None p = true ->
   Flatten.carried_of key (fst (Flatten.flat key empty fuel und None s p)) = fst (Flatten.carried_spec key empty fuel None s p) /\
   snd (Flatten.flat key empty fuel und None s p) = snd (Flatten.carried_spec key empty fuel None s p).
 Proof. exact flat_carries_order_in_effect_top. Qed.
 Print Assumptions c03_flattener_carries_order_in_effect_top.
 
 Theorem c03_flattener_carries_order_in_effect_refuted :
-  exists p : list (pitem (list bool)),
-    Flatten.carried_of (list bool) (fst (Flatten.flat (list bool) [] 20 false None [] p))
-    <> fst (Flatten.carried_spec (list bool) [] 20 None [] p).
-Proof. exists [PGroup true [PSort [false]; PAgg; PTake]]. vm_compute. discriminate. Qed.
+  (exists p : list (pitem (list bool)),            (* F44 *)
+     Flatten.tame_nest (list bool) 20 None p = true /\
+     Flatten.carried_of (list bool) (fst (Flatten.flat (list bool) [] 20 false None [] p))
+     <> fst (Flatten.carried_spec (list bool) [] 20 None [] p)) /\
+  (exists p : list (pitem (list bool)),            (* F45 *)
+     Flatten.tame_agg (list bool) 20 false p = true /\
+     Flatten.carried_of (list bool) (fst (Flatten.flat (list bool) [] 20 false None [] p))
+     <> fst (Flatten.carried_spec (list bool) [] 20 None [] p)).
+Proof.
+  split.
+  - exists [PGroup 1 [PSort [false]; PAgg; PTake]]. split; [vm_compute; reflexivity | vm_compute; discriminate].
+  - exists [PGroup 1 [PGroup 1 [PSort [false]; PTake]; POther]]. split; [vm_compute; reflexivity | vm_compute; discriminate].
+Qed.
 Print Assumptions c03_flattener_carries_order_in_effect_refuted.
 
 Theorem c03_plain_pipeline_keeps_sorts : forall (key : Type) (empty : key) p fuel part s,
@@ -118,24 +130,32 @@ Print Assumptions c03_plain_pipeline_keeps_sorts.
 (* F37 at model level: two takes under different sorts in front of a group lose both Sort transforms
    (the takes still carry their sorts, but nothing separates them any more) *)
 Example c03_ex_f37 :
-  fst (Flatten.flat (list bool) [] 20 false None [] [PSort [false]; PTake; PSort [true]; PTake; PGroup true [PTake]])
-  = [OTake false [false]; OTake false [true]; OTake true []].
+  fst (Flatten.flat (list bool) [] 20 false None [] [PSort [false]; PTake; PSort [true]; PTake; PGroup 1 [PTake]])
+  = [OTake 0 [false]; OTake 0 [true]; OTake 1 []].
 Proof. vm_compute. reflexivity. Qed.
-(* F44 at model level, and the tame class is inhabited by programs with aggregates inside and outside of groups *)
+(* F44 and F45 at model level; the tame class is inhabited by programs with aggregates inside and outside of groups and
+   with a group nested in an empty-key group *)
 Example c03_ex_f44 :
-  fst (Flatten.flat (list bool) [] 20 false None [] [PGroup true [PSort [false]; PAgg; PTake]]) = [OTake true [false]].
+  fst (Flatten.flat (list bool) [] 20 false None [] [PGroup 1 [PSort [false]; PAgg; PTake]]) = [OTake 1 [false]].
 Proof. vm_compute. reflexivity. Qed.
+Example c03_ex_f45 :
+  Flatten.carried_of (list bool) (fst (Flatten.flat (list bool) [] 20 false None [] [PGroup 1 [PGroup 2 [PSort [false]; PTake]; PTake]]))
+  = [(2, [false]); (1, [])] /\
+  fst (Flatten.carried_spec (list bool) [] 20 None [] [PGroup 1 [PGroup 2 [PSort [false]; PTake]; PTake]])
+  = [(3, [false]); (1, [])].
+Proof. vm_compute. split; reflexivity. Qed.
 Example c03_ex_tame :
-  Flatten.tame (list bool) 20 false [PSort [true]; PGroup true [PSort [false]; PTake; PAgg]; PSort [false]; PAgg; PWin] = true.
+  Flatten.tame (list bool) 20 None
+    [PSort [true]; PGroup 1 [PSort [false]; PTake; PAgg]; PSort [false]; PAgg; PWin; PGroup 0 [PGroup 2 [PSort [true]; PTake]; PTake]] = true.
 Proof. vm_compute. reflexivity. Qed.
 (* fix 8d54bf7: outside of groups an aggregate ends the sort (the take after it is handed none) *)
 Example c03_ex_aggregate_ends_sort :
-  fst (Flatten.flat (list bool) [] 20 false None [] [PSort [false]; PAgg; PTake]) = [OSort [false]; OTake false []].
+  fst (Flatten.flat (list bool) [] 20 false None [] [PSort [false]; PAgg; PTake]) = [OSort [false]; OTake 0 []].
 Proof. vm_compute. reflexivity. Qed.
 (* fix 592b6f8: what follows a nested group inside a group body is partitioned by the outer group again *)
 Example c03_ex_nested_group_restores_partition :
-  fst (Flatten.flat (list bool) [] 20 false None [] [PGroup true [PGroup false [PTake]; PSort [true]; PTake]])
-  = [OTake false []; OTake true [true]].
+  fst (Flatten.flat (list bool) [] 20 false None [] [PGroup 1 [PGroup 0 [PTake]; PSort [true]; PTake]])
+  = [OTake 0 []; OTake 1 [true]].
 Proof. vm_compute. reflexivity. Qed.
 
 (* non-vacuity: sort | take | filter, cut after the take: the main query re-emits the sort *)
